@@ -6,7 +6,7 @@ from vlib import progspace as ps
 LEVEL = "exploration"
 RULE = ("Bounded-exhaustive: the C01 program space (AST size <= S) with two extra leaves, probe() as a statement and "
         "probe() nested in a call expression (non-empty value stack), rendered as plain function, generator, coroutine "
-        "and async generator; every decision path; at every probe in the body and inside every __enter__/__exit__/"
+        "and async generator, plus 28 deeply nested programs (6-15 managers in one frame: one multi-item statement, nested statements, withs between many try blocks; plain function and coroutine); every decision path; at every probe in the body and inside every __enter__/__exit__/"
         "__aenter__ (before/after its await)/__aexit__ (before/after its await) the probe walks f_back to the target "
         "frame and compares extract_since(frame).frames[0].contexts and contexts_active_in_frame(frame, None, next_inner) "
         "with the shadow model (entering manager not listed; exiting manager listed last, is_exiting, obj identical). "
@@ -126,6 +126,16 @@ def run(ctx):
                 if idx % 9973 == 0:
                     ctx.sample({"kind": kind, "src": ps.render(body, kind)[0]})
         return
+    from vlib.props import c01
+    for di, (label, kind, src, withs) in enumerate(c01.deep_programs(probe=True)):
+        # deeply nested frames (6-15 managers in one frame), probed from the body and from inside every enter / exit
+        if not ctx.mine(di):
+            continue
+        npaths, nobs = run_program(None, kind, ctx, make_observer, case_extra={"deep": label}, src_withs=(src, withs), ns=ps.NS_MIXED)
+        ctx.count("deep_nested_programs")
+        ctx.count("distinct_nontrivial")
+        ctx.count("paths", npaths)
+        ctx.count("evaluations", nobs)
     for body in space(ctx.tier):
         for kind in KINDS:
             if not ps.kind_ok(body, kind):
